@@ -1496,6 +1496,17 @@ class FnEmitter:
             self.u.register_lambda(self, lam, name)
             return
         ct = self.ty.ctype_of(tq)
+        if init is not None and 'desugaredQualType' not in tq and d.get('isImplicit'):
+            # `auto&&` range variable bound to a data member: clang prints the member's type as written
+            # (unqualified names); the member's own declaration has the resolved spelling
+            i0 = self.strip_all(init)
+            if i0.get('kind') == 'MemberExpr' and i0.get('referencedMemberDecl') in self.idx.node:
+                ft = self.idx.node[i0['referencedMemberDecl']].get('type')
+                if ft:
+                    try:
+                        ct = self.ty.ctype_of(ft)
+                    except Unsupported:
+                        pass
         if ct == 'lock_t':
             return self.lock_guard(d, init)
         raii = self.cfg.get('raii_types', {}).get(ct)
